@@ -208,7 +208,13 @@ def _run(case, work):
         labels.add("not_a_tar")
     elif fault == "dup_row":
         dups = [rows[(pos + j) % len(rows)] for j in range(min(case["ndup"], len(rows)))]
-        projgen.seed_rows(dst, dups, make_dirs=True, files=[("mine.txt", "destination's own version")])
+        if case["frac"] % 3 == 0:
+            # the destination records the version with other metadata and its directory is gone (deleted by hand)
+            dups = [(t, ts, "d" * 40 if c is None else None, not d) for t, ts, c, d in dups]
+            projgen.seed_rows(dst, dups, make_dirs=False)
+            labels.add("dup_row_without_dir")
+        else:
+            projgen.seed_rows(dst, dups, make_dirs=True, files=[("mine.txt", "destination's own version")])
         if pos > 0:
             labels.add("dup_row_not_first")
             strikes_late = True
